@@ -1773,6 +1773,13 @@ impl Fs {
             return Err("No such file or directory");
         }
 
+        // Renaming an existing path onto itself is a successful no-op.
+        if from == to
+            && (self.file_exists(from) || self.dir_exists(from) || self.symlink_exists(from))
+        {
+            return Ok(());
+        }
+
         // Try renaming a file
         if self.file_exists(from) {
             // Can't rename file onto directory
